@@ -361,11 +361,15 @@ class Open(State):
 
         self.association.tracking_events()
 
+        #: Once the connection is going down nothing else is processed in 
+        #: this tick: the events below would set the next state back to Open.
         if self.is_set_release_signal_from_peer():
             self.event_open_peer_disc()      
+            return
 
         if self.is_set_release_signal_from_local():
             self.event_stop()
+            return
 
         if self.has_send_queue_message():
             self.make_default_logging(queue="send")
